@@ -249,15 +249,16 @@ macro_rules! lemma_s {
                 }
                 assert!(*a.checksum.data() == r.ck);
                 let k: usize = kani::any();
-                kani::assume(k < 256);
+                kani::assume(k < a.buckets.buckets.len());
                 assert!(a.buckets.buckets[k] == g0.buckets.buckets[k]);
                 assert!(a.processed_len() == Some(1000 + r.consumed + r.tl as u32));
                 kani::cover!(r.consumed as usize == ($n + $tl as usize).saturating_sub(4));
             } else {
                 // native replay: complete comparison against the full reference model
+                let mut bb = [0u32; 256];
+                bb[..g0.buckets.buckets.len()].copy_from_slice(&g0.buckets.buckets);
                 let mut r = RefGenFull::<$ck> {
-                    win: g0.tail, tl: $tl, ck: ck0, consumed: 0,
-                    buckets: g0.buckets.buckets, short: $nb == 48,
+                    win: g0.tail, tl: $tl, ck: ck0, consumed: 0, buckets: bb, short: $nb == 48,
                 };
                 let mut i = 0;
                 while i < $n {
@@ -325,7 +326,7 @@ macro_rules! lemma_c {
             assert!(a.checksum == b.checksum);
             assert!(a.processed_len() == b.processed_len());
             let k: usize = kani::any();
-            kani::assume(k < 256);
+            kani::assume(k < a.buckets.buckets.len());
             assert!(a.buckets.buckets[k] == b.buckets.buckets[k]);
         }
     };
